@@ -997,8 +997,10 @@ func (r *prunner) roundTrips() {
 				if same && req.Item != nil {
 					same = back.Item != nil && bytes.Equal(back.Item.Body, req.Item.Body)
 					if same && it.Verb != "incr" && it.Verb != "decr" {
-						same = back.Item.Flag == req.Item.Flag && back.Item.Exptime == req.Item.Exptime &&
-							back.Item.Cas == req.Item.Cas
+						same = back.Item.Flag == req.Item.Flag && back.Item.Exptime == req.Item.Exptime
+					}
+					if same && it.Verb == "cas" {
+						same = back.Item.Cas == req.Item.Cas
 					}
 				}
 				if _, e2 := rd.ReadByte(); e2 == nil {
@@ -1040,7 +1042,9 @@ func (r *prunner) roundTrips() {
 				rd := bufio.NewReader(bytes.NewReader(w.Bytes()))
 				rerr := back.Read(rd)
 				e["rerr"] = errStr(rerr)
-				same := werr == nil && rerr == nil && back.Status == resp.Status && len(back.Items) == len(resp.Items)
+				// a VALUE reply parses back as its items with the status of the closing END line
+				stOK := back.Status == resp.Status || (resp.Status == "VALUE" && back.Status == "END")
+				same := werr == nil && rerr == nil && stOK && len(back.Items) == len(resp.Items)
 				if same && resp.Status != "INCR" && resp.Status != "STAT" {
 					same = back.Msg == resp.Msg
 				}
@@ -1060,8 +1064,8 @@ func (r *prunner) roundTrips() {
 				}
 				e["same"] = same
 				e["back"] = back.Status
-				if rerr == nil {
-					back.CleanBuffer()
+				if rerr == nil && resp.Status != "STAT" {
+					back.CleanBuffer() // (STAT items were never added to GetData: CleanBuffer would drive it negative)
 				}
 			}
 		}()
